@@ -87,6 +87,9 @@ func checkC11(cx *Ctx, r *Report) {
 	// storage is asked with the request's context (which carries the issuer in effect)
 	cx.checkStorageContext(r)
 	cx.checkStorageIsTheApplications(r)
+	// what the metadata says is what the configuration holds: no marshaller of the module rewrites a value on the way
+	// out (a flag the enforcement reads as configured but the document shows "canonicalised" is advertised differently)
+	cx.checkNoCustomMarshallers(r)
 	r.Clauses = []string{
 		"Issuer = entityID: every Issuer of a protocol reply (login, SSO error, logout, attribute query) and the entityID of the metadata document have the single source IdentityProvider.GetEntityID(<the request's context>) = metadataEndpoint.Absolute(IssuerFromContext(ctx))",
 		"routes vs advertised locations: the composed table service -> endpoint -> handler extracted from getMetadata and GetRoutes equals {SingleSignOnService -> ssoHandleFunc, SingleLogoutService -> logoutHandleFunc, AttributeService -> attributeQueryHandleFunc}; advertised and routed endpoints are built by endpointConfigToEndpoints from the same configuration; Absolute (without URL override) and Relative both end in relativeEndpoint(path); routes carry no method/host matcher; the metadata route is metadataEndpoint.Relative()",
